@@ -46,7 +46,8 @@ SPEC = {
         'AITB.C12Check.violationOK_sound', 'AITB.C12Check.neededOK_sound', 'AITB.C12Check.pairwiseOK_sound',
         'AITB.C12Check.weak_duality_sound', 'AITB.C12Check.interp_sound',
         'AITB.C12Check.envelopeClause_ok_sound', 'AITB.C12Check.envelopeClause_bad_sound', 'AITB.C12Check.envelopeClause_consistent',
-        'AITB.C12Check.strictNeededOK_sound', 'AITB.C12Check.neededClause_ok_sound', 'AITB.C12Check.neededClause_bad_sound', 'AITB.C12Check.neededClause_consistent',
+        'AITB.C12Check.strictNeededOK_sound', 'AITB.C12Check.tieAtOK_sound', 'AITB.C12Check.needBad_sound', 'AITB.C12Check.neededClause_ok_sound',
+        'AITB.C12Check.neededClause_bad_sound', 'AITB.C12Check.neededClause_within_sound', 'AITB.C12Check.neededClause_consistent',
         # interpolation models
         'AITB.Interp.sawLoop_minCF_nonpos', 'AITB.Interp.sawtooth_le_corner_bound', 'AITB.Interp.sawLoop_spec',
         'AITB.Interp.basicV_le_corner', 'AITB.Interp.sawtooth_repaired_total', 'AITB.Interp.sawtooth_repaired_weights',
